@@ -145,6 +145,10 @@ func runCase(env *vlib.Env, idx int, rep *vlib.Reporter) {
 		n, t = 4, 3
 	}
 	w := gossipnet.NewWorld(env.Seed+uint64(idx%4), n, t)
+	if idx%13 == 5 {
+		w.ZeroThreshold = true
+		rep.Obs("cases_with_a_stored_threshold_of_zero", 1)
+	}
 	index := 1 + r.Intn(n-1)
 	if state == gossipnet.StateNotMember {
 		index = -1
@@ -156,6 +160,7 @@ func runCase(env *vlib.Env, idx int, rep *vlib.Reporter) {
 	}
 	defer node.Close()
 	inputs := gossipnet.HostileInputs(r, w, f, perCase)
+	var accepted []gossipnet.Input
 	for i, in := range inputs {
 		key := fmt.Sprintf("%s:%s", f, in.Label)
 		desc := fmt.Sprintf("flavour=%s state=%s topic=%s label=%s data=%s", f, state, in.Topic, in.Label, hex.EncodeToString(in.Data))
@@ -182,6 +187,7 @@ func runCase(env *vlib.Env, idx int, rep *vlib.Reporter) {
 		case !d.Subscribed:
 			rep.Obs("unsubscribed_"+string(f), 1)
 		case d.Result == pubsub.ValidationAccept && d.Handled:
+			accepted = append(accepted, in)
 			rep.Obs("handled_"+string(f), 1)
 			if d.HandleErr != nil {
 				rep.Obs("handler_errors_"+string(f), 1)
@@ -198,6 +204,26 @@ func runCase(env *vlib.Env, idx int, rep *vlib.Reporter) {
 			rep.Sample(map[string]any{"flavour": f, "state": state, "topic": in.Topic, "label": in.Label, "bytes": len(in.Data), "result": int(d.Result), "handled": d.Handled})
 		}
 	}
+	// the real receive loop: every message the validators accepted is handed to
+	// P2PMessaging.runHandleMessages; whatever the handlers answer, the loop keeps running
+	loop := node.StartReceiveLoop(ctx)
+	for _, in := range accepted {
+		if !loop.Push(in.Topic, in.Data) {
+			break
+		}
+		rep.Obs("messages_through_the_receive_loop", 1)
+	}
+	lerr, ended := loop.Drained(inputs[0].Topic, []byte{0xff, 0xff, 0xff})
+	if ended {
+		rep.Violationf("receive-loop-ended:"+string(f), map[string]any{"flavour": f, "state": state, "error": fmt.Sprint(lerr), "messages": len(accepted)},
+			"the receive loop ended (%v) while handling validated messages", lerr)
+		return
+	}
+	if err := loop.Stop(); err != nil && err != context.Canceled {
+		rep.Violationf("receive-loop-ended:"+string(f), map[string]any{"flavour": f, "state": state, "error": err.Error()}, "the receive loop ended with %v", err)
+		return
+	}
+	rep.Obs("receive_loops_alive_at_the_end", 1)
 	if node.DBNode != nil {
 		if u := node.DBNode.CheckUnsupported(); u != "" {
 			rep.Inconclusive(u)
